@@ -179,6 +179,15 @@ def _nested_dict_set(d, path, key, value):
     current[key] = value
 
 
+def _nested_dict_merge(dst, src):
+    """Merge nested dict `src` into `dst`; later (src) leaves replace earlier ones."""
+    for key, value in src.items():
+        if isinstance(value, dict) and isinstance(dst.get(key), dict):
+            _nested_dict_merge(dst[key], value)
+        else:
+            dst[key] = value
+
+
 def _nested_dict_get(d, path):
     """Get a nested dictionary using the given path."""
     current = d
@@ -311,9 +320,15 @@ class State:
                 )
 
                 # Merge vectorized scan states into collected state
-                # scan_states is already vectorized by scan - just merge it
-                for name, vectorized_values in scan_states.items():
-                    self.collected_state[name] = vectorized_values
+                # scan_states is already vectorized by scan - merge it under the
+                # namespaces enclosing the scan, keeping sibling entries
+                if scan_states:
+                    _nested_dict_merge(
+                        _nested_dict_get(
+                            self.collected_state, tuple(self.namespace_stack)
+                        ),
+                        scan_states,
+                    )
 
                 outvals = jtu.tree_leaves(
                     (flat_carry_out, scanned_out),
